@@ -3,8 +3,10 @@ package sym
 import (
 	"fmt"
 	"math"
+	"os"
 	"runtime/debug"
 	"sort"
+	"strconv"
 	"strings"
 	"sync"
 	"time"
@@ -292,6 +294,40 @@ func (ex *Explorer) noteViolation(c *Ctx, key, msg string, m Model) {
 		Decisions: append([]int{}, c.trace...), Count: 1, Tier: ex.Tier, Log: append([]string{}, c.log...)})
 }
 
+var slowPathMs, _ = strconv.Atoi(os.Getenv("VERIF_SLOWPATH_MS"))
+
+// VERIF_PATHSTATS=name1,name2: count paths per value of these verifChoice names (diagnostics)
+var (
+	pathStatKeys []string
+	pathStats    = map[string]int{}
+	pathStatMu   sync.Mutex
+)
+
+func init() {
+	if v := os.Getenv("VERIF_PATHSTATS"); v != "" {
+		pathStatKeys = strings.Split(v, ",")
+	}
+}
+
+// DumpPathStats prints the counters collected under VERIF_PATHSTATS.
+func DumpPathStats() {
+	if pathStatKeys == nil {
+		return
+	}
+	type kv struct {
+		k string
+		v int
+	}
+	var l []kv
+	for k, v := range pathStats {
+		l = append(l, kv{k, v})
+	}
+	sort.Slice(l, func(i, j int) bool { return l[i].v > l[j].v })
+	for i := 0; i < len(l) && i < 40; i++ {
+		fmt.Fprintf(os.Stderr, "PATHSTAT %8d %s\n", l[i].v, l[i].k)
+	}
+}
+
 func (ex *Explorer) noteKnown(kf *KnownFinding, c *Ctx, m Model) {
 	ex.mu.Lock()
 	defer ex.mu.Unlock()
@@ -470,6 +506,27 @@ func (a *SolverStats) add(b *SolverStats) {
 }
 
 func (ex *Explorer) runPath(c *Ctx, fn *ssa.Function) {
+	if pathStatKeys != nil {
+		defer func() {
+			k := ""
+			for _, n := range pathStatKeys {
+				if v, ok := c.choices[n]; ok {
+					k += fmt.Sprintf("%s=%d ", n, v)
+				}
+			}
+			pathStatMu.Lock()
+			pathStats[k]++
+			pathStatMu.Unlock()
+		}()
+	}
+	if slowPathMs > 0 {
+		t0 := time.Now()
+		defer func() {
+			if d := time.Since(t0); d > time.Duration(slowPathMs)*time.Millisecond {
+				fmt.Fprintf(os.Stderr, "SLOWPATH %s %.1fs choices=%v trace=%v\n", ex.harness, d.Seconds(), c.choices, c.trace)
+			}
+		}()
+	}
 	defer func() {
 		r := recover()
 		if r == nil {
@@ -495,6 +552,9 @@ func (ex *Explorer) runPath(c *Ctx, fn *ssa.Function) {
 			case "unwind":
 				c.st.UnwindExceeded++
 				ex.res.Unsupported["unwind: "+p.Msg]++
+				if ex.Verbose {
+					fmt.Fprintf(os.Stderr, "UNWIND %s choices=%v\n", ex.harness, c.choices)
+				}
 			case "budget", "deadlock":
 				c.st.BudgetCut++
 				ex.res.Unsupported[p.Kind+": "+p.Msg]++
